@@ -1,8 +1,8 @@
 (* C06 - Marshal emits the canonical deterministic protobuf bytes. *)
-From Coq Require Import List ZArith Bool.
+From Coq Require Import List ZArith Bool Sorted.
 From Pico Require Import Base.Res Base.Mach Wire.Wire Schema.Types Schema.Scalar Ref.Ref
   Schema.ScalarProofs Enc.Enc Enc.EncProofs Wire.VarintProofs Wire.WireProofs
-  Schema.Gen Schema.Interp Schema.EncSpec Schema.EncProgProofs Schema.TEnc gen.Schemas.
+  Schema.Gen Schema.Interp Schema.EncSpec Schema.EncProgProofs Schema.TEnc Dec.TokenBridge Schema.RoundTrip Schema.Order gen.Schemas.
 Import ListNotations.
 Open Scope Z_scope.
 
@@ -33,6 +33,17 @@ Theorem C06_strong : forall fuel s progs idx fs un,
   pico_marshal fuel progs idx (fs, un) = Ok (ref_encode fuel s idx fs un).
 Proof. exact T_enc. Qed.
 
+(* the order clause, explicitly: Marshal's output is a sequence of complete records; those of the known fields come first,
+   their field numbers ascend (records of one repeated or map field stay together), and the captured unrecognized
+   fields of a capturing message follow *)
+Theorem C06_ascending_order : forall s progs fuel idx fs un m,
+  gen_all s = GOk progs -> wf_schema_enc s = true -> rt_applies_at s idx = true -> nth_error s idx = Some m ->
+  msg_ok fuel progs idx (Some (fs, un)) = true -> rt_ok fuel s idx fs un = true ->
+  exists data tk tu, pico_marshal fuel progs idx (fs, un) = Ok data /\ tokens data = Some (tk ++ tu) /\
+    StronglySorted Z.le (map t_num tk) /\ Forall (fun t => find_field m (t_num t) <> None) tk /\
+    tokens (if m_capture m then un else []) = Some tu /\ Forall (fun t => find_field m (t_num t) = None) tu.
+Proof. exact marshal_ascending. Qed.
+
 (* PARTIAL: C06 itself is the fixpoint form "bytes = reference serialisation of the message those
    bytes denote"; with C06_strong it reduces to the spec-level fact ref_encode (ref_decode b) = b on
    the image of ref_encode, which is not proved here: ref_encode is validated against protobuf-go's
@@ -54,6 +65,7 @@ Proof. repeat split; vm_compute; reflexivity. Qed.
 Example C06_nonvacuous : len_ok (repeat 7 16384) /\ spec_varint 16384 = [128; 128; 1] /\ spec_varint 2097152 = [128; 128; 128; 1].
 Proof. repeat split; vm_compute; reflexivity. Qed.
 
+Print Assumptions C06_ascending_order.
 Print Assumptions C06_minimal_varint.
 Print Assumptions C06_minimal_tag.
 Print Assumptions C06_minimal_length.
